@@ -149,6 +149,8 @@ Proof.
   - eapply close_allowed; exact H.
   - injection H as <- <- <-. reflexivity.
   - destruct (maxFieldIndex <? n); injection H as <- <- <-; reflexivity.
+  - unfold builtin_fflush in H. destruct (bytes_eqb name []); [|destruct (lookup name (outs s))];
+      injection H as <- <- <-; reflexivity.
 Qed.
 
 Lemma run_allowed c e : forall h s, forallb (allowed c) (run_effects c e s h) = true.
@@ -250,6 +252,7 @@ Proof.
   - unfold builtin_close; destruct_matches; cbn; discriminate.
   - cbn. discriminate.
   - destruct (maxFieldIndex <? n); cbn; discriminate.
+  - unfold builtin_fflush; destruct_matches; cbn; discriminate.
 Qed.
 
 (* ---- a Stop is the last thing that happens ---------------------------------- *)
@@ -463,4 +466,6 @@ Proof.
     destruct (lookup name (ins s)); [|destruct (lookup name (outs s))]; cbn; unfold forbidden; cbn; rewrite ?andb_false_r; discriminate.
   - cbn in Hex. discriminate.
   - destruct (maxFieldIndex <? n); cbn in Hex; discriminate.
+  - exfalso. unfold builtin_fflush in Hex. revert Hex.
+    destruct (bytes_eqb name []); [|destruct (lookup name (outs s))]; cbn; discriminate.
 Qed.
